@@ -357,13 +357,12 @@ theorem skip_sim (c : Co) : Sim (skipCo c) c (fun st s => st.1 = s) := by
         simp [skipCo, hk]
       rw [e]; exact isRun_back c st.1
 
-theorem step_sim (n : Nat) (c : Co) : Sim (stepCo n c) c (fun st s => st = s) := by
-  apply sim_of_proj (A := stepCo n c) (c := c) (fun st => st)
-  · intro (st : c.σ)
-    have e : (stepCo n c).next st = ⟨(c.next st).out, (pullN c (n - 1) (c.next st).st).1,
-        (c.next st).ev ++ (pullN c (n - 1) (c.next st).st).2⟩ := by simp [stepCo]
-    rw [e]; exact isRun_trans (isRun_next c st) (pullN_run c _ _)
-  · intro (st : c.σ); exact isRun_refl c st
+theorem step_sim (n : Nat) (c : Co) : Sim (stepCo n c) c (fun st s => st.1 = s) := by
+  apply sim_of_proj (A := stepCo n c) (c := c) (fun st => st.1)
+  · intro (st : c.σ × Nat)
+    have ⟨_, e2, e3, _⟩ := step_next_eq n c st
+    rw [e2, e3]; exact nth_run c st.2 st.1
+  · intro (st : c.σ × Nat); exact isRun_refl c st.1
 
 theorem chunks_sim (n : Nat) (c : Co) : Sim (chunksCo n c) c (fun st s => st = s) := by
   apply sim_of_proj (A := chunksCo n c) (c := c) (fun st => st)
@@ -628,9 +627,9 @@ theorem pipe_trace (fuel : Nat) (p : Pipe) :
     exact ih ds'
   | step n p ih =>
     intro ds
-    obtain ⟨ds', _, he⟩ := sim_run (step_sim n (build fuel p).c) ds (build fuel p).s (build fuel p).s rfl
+    obtain ⟨ds', _, he⟩ := sim_run (step_sim n (build fuel p).c) ds ((build fuel p).s, 0) (build fuel p).s rfl
     show SrcTr p _
-    rw [show (build fuel (.step n p)) = ⟨stepCo n (build fuel p).c, (build fuel p).s⟩ from rfl, he]
+    rw [show (build fuel (.step n p)) = ⟨stepCo n (build fuel p).c, ((build fuel p).s, 0)⟩ from rfl, he]
     exact ih ds'
   | chain p q ihp ihq =>
     intro ds
